@@ -347,6 +347,110 @@ Theorem C08_replace_position_unrelated : forall c t par p L D R x PQ PX,
 Proof. exact C08_replace_unrelated_stmt. Qed.
 Print Assumptions C08_replace_position_unrelated.
 
+(* ---- the string layer in general, and prop_C08 on the model's output family by family ------------------------- *)
+(* sl_in cp fl sep tsep t lf FX lt TX : the call shift_nodes (cp = false) / copy_nodes (cp = true) on the tree t with
+   tree.sep = tsep, argument sep, one pair: from = [sep]FX joined by sep, to = [sep]TX joined by sep (lf / lt: leading
+   separator present).  Separators: any positive length, possibly different.  Names: sgood for both separators. *)
+
+(* refused by an argument check — for every tree, path pair and flag combination of this shape: both merge flags, last
+   names differ, a from-path (with_full_path) or a to-path that does not start at the root: ValueError, nothing
+   changed, prop_C08 accepts it *)
+Theorem C08_prop_refused_by_checks : forall a1 o1 a2 o2 cp fl t lf lt FX TX,
+  FX <> [] -> TX <> [] ->
+  Forall (sgood (a1 :: o1)) FX -> Forall (sgood (a2 :: o2)) FX -> Forall (sgood (a1 :: o1)) TX -> Forall (sgood (a2 :: o2)) TX ->
+  f_mc fl && f_ml fl = true \/ sl_checks fl t FX TX = false ->
+  let i := sl_in cp fl (a1 :: o1) (a2 :: o2) t lf FX lt TX in
+  snd (run i) = Some ValueError /\ prop_C08 i (obs_of i (run i)) None = true.
+Proof. intros. apply fam_refused; assumption. Qed.
+Print Assumptions C08_prop_refused_by_checks.
+
+(* a (full) from-path that addresses no node: NotFoundError — or nothing at all with skippable — and prop_C08 accepts it *)
+Theorem C08_prop_missing_from_path : forall a1 o1 a2 o2 cp fl t lf lt FX TX,
+  FX <> [] -> TX <> [] ->
+  Forall (sgood (a1 :: o1)) FX -> Forall (sgood (a2 :: o2)) FX -> Forall (sgood (a1 :: o1)) TX -> Forall (sgood (a2 :: o2)) TX ->
+  f_full fl = true -> f_mc fl && f_ml fl = false -> sl_checks fl t FX TX = true -> wf_t t ->
+  has (rows t) FX = false ->
+  let i := sl_in cp fl (a1 :: o1) (a2 :: o2) t lf FX lt TX in
+  fst (run i) = [t] /\ snd (run i) = (if f_skip fl then None else Some NotFoundError)
+  /\ prop_C08 i (obs_of i (run i)) None = true.
+Proof. intros. apply fam_missing_from; assumption. Qed.
+Print Assumptions C08_prop_missing_from_path.
+
+(* from == to without a merge flag: TreeError, nothing changed *)
+Theorem C08_prop_same_node : forall a1 o1 a2 o2 cp fl t lf lt PX p x,
+  Forall (sgood (a1 :: o1)) PX -> Forall (sgood (a2 :: o2)) PX ->
+  f_full fl = true -> f_mc fl = false -> f_ml fl = false -> wf_t t ->
+  p <> [] -> tget t p = Some x -> tpath t p = Some PX ->
+  let i := sl_in cp fl (a1 :: o1) (a2 :: o2) t lf PX lt PX in
+  run i = ([t], Some TreeError) /\ prop_C08 i (obs_of i (run i)) None = true.
+Proof. exact C08_prop_same_node_stmt. Qed.
+Print Assumptions C08_prop_same_node.
+
+(* ACCEPTED calls, destination absent: plain shift / plain copy / delete_children with either — the whole string-level
+   call (sep != tree.sep allowed, leading separators allowed, with_full_path) returns without exception, its table is
+   Spec.edit_cs, and prop_C08 accepts the model's output.  This is C08_shift_whole_call_multi without "sep = tree.sep"
+   and "no leading separator", and for copy and delete_children as well. *)
+Theorem C08_whole_call_general : forall a1 o1 a2 o2 (cp : bool) fl t lf lt PX p x comps,
+  let Q := tname t :: comps in
+  let TX := Q ++ [tname x] in
+  Forall (sgood (a1 :: o1)) PX -> Forall (sgood (a2 :: o2)) PX ->
+  Forall (sgood (a1 :: o1)) Q -> Forall (sgood (a2 :: o2)) Q ->
+  f_full fl = true -> f_mc fl = false -> f_ml fl = false -> wf_t t ->
+  p <> [] -> tget t p = Some x -> tpath t p = Some PX ->
+  pfx PX Q = false -> has (rows t) TX = false ->
+  let i := sl_in cp fl (a1 :: o1) (a2 :: o2) t lf PX lt TX in
+  exists t2 rest, run i = (t2 :: rest, None)
+    /\ edit_cs cp true fl (rows t) (rows t) PX (Some TX) = PNext (rows t2) (rows t2)
+    /\ prop_C08 i (obs_of i (run i)) None = true.
+Proof. exact C08_whole_call_general_stmt. Qed.
+Print Assumptions C08_whole_call_general.
+
+(* the tool behind it, usable with any proved row of the decision table for an absent destination (merge_children,
+   merge_leaves_partial, ...): if cs_core's table is edit_cs's table then the whole call satisfies prop_C08 *)
+Theorem C08_prop_absent_generic : forall a1 o1 a2 o2 cp fl t lf lt PX p x comps t2 rest,
+  let Q := tname t :: comps in
+  let TX := Q ++ [tname x] in
+  Forall (sgood (a1 :: o1)) PX -> Forall (sgood (a2 :: o2)) PX ->
+  Forall (sgood (a1 :: o1)) Q -> Forall (sgood (a2 :: o2)) Q ->
+  f_full fl = true -> f_mc fl && f_ml fl = false -> wf_t t ->
+  p <> [] -> tget t p = Some x -> tpath t p = Some PX ->
+  has (rows t) TX = false ->
+  cs_core (cfg_same cp (a1 :: o1) (a2 :: o2) fl) [t] (0 :: p) (TNew comps) = (t2 :: rest, None) ->
+  edit_cs cp true fl (rows t) (rows t) PX (Some TX) = PNext (rows t2) (rows t2) ->
+  let i := sl_in cp fl (a1 :: o1) (a2 :: o2) t lf PX lt TX in
+  run i = (t2 :: rest, None) /\ prop_C08 i (obs_of i (run i)) None = true.
+Proof. exact C08_prop_absent_generic_stmt. Qed.
+Print Assumptions C08_prop_absent_generic.
+
+(* ACCEPTED, overriding an existing destination (neither node inside the other, equal names) *)
+Theorem C08_prop_override : forall a1 o1 a2 o2 fl t lf lt p d x D PX PD,
+  Forall (sgood (a1 :: o1)) PX -> Forall (sgood (a2 :: o2)) PX ->
+  Forall (sgood (a1 :: o1)) PD -> Forall (sgood (a2 :: o2)) PD ->
+  f_full fl = true -> f_over fl = true -> f_mc fl = false -> f_ml fl = false -> f_dc fl = false -> wf_t t ->
+  p <> [] -> d <> [] -> tget t p = Some x -> tget t d = Some D ->
+  tpath t p = Some PX -> tpath t d = Some PD ->
+  pfx PX PD = false -> pfx PD PX = false -> tname D = tname x ->
+  let i := sl_in false fl (a1 :: o1) (a2 :: o2) t lf PX lt PD in
+  snd (run i) = None /\ prop_C08 i (obs_of i (run i)) None = true.
+Proof. exact C08_prop_override_stmt. Qed.
+Print Assumptions C08_prop_override.
+
+(* C08_replace_position_unrelated linked to Spec.edit_rp ("unrelated" stated on paths: neither path is a prefix of
+   the other's parent path) *)
+Theorem C08_replace_position_unrelated_spec : forall c fl t par p L D R x PQ PX,
+  plain_replace c -> f_dc fl = false -> wf_t t -> tpath t par = Some PQ -> par <> [] -> p <> [] ->
+  fkids par (tkids t) = Some (L ++ D :: R) -> tget t p = Some x -> tpath t p = Some PX ->
+  pfx PQ PX = false -> pfx PX PQ = false ->
+  (forall k, In k (L ++ R) -> tname k <> tname x) ->
+  let d := par ++ [length L] in
+  let PD := PQ ++ [tname D] in
+  let t2 := t_setk (adj' p par) (L ++ x :: R) (t_remove p (t_remove d t)) in
+  (exists rest, rp_core c [t] (0 :: p) (0 :: d) = (t2 :: rest, None))
+  /\ rows t2 = minus (before_block (rows t) PD) PX ++ rows_from PQ x ++ minus (after_block (rows t) PD) PX
+  /\ edit_rp false true fl (rows t) (rows t) PX (Some PD) = PNext (rows t2) (rows t2).
+Proof. exact C08_replace_unrelated_spec_stmt. Qed.
+Print Assumptions C08_replace_position_unrelated_spec.
+
 (* ---- the hypotheses are satisfiable by non-trivial inputs ------------------------------------ *)
 
 Ltac conj := repeat match goal with |- _ /\ _ => split end.
@@ -549,4 +653,31 @@ Example C08_replace_position_unrelated_run :
                                                   T (Some 8) [103%N] [] []] ];
      T (Some 7) [102%N] [] []]
   /\ is_prefix [1] [0; 0] = false /\ is_prefix [0; 0] [1] = false.
+Proof. vm_compute. conj; reflexivity. Qed.
+
+(* sep "::" with tree.sep "/" and leading separators: "::r::a::b" -> "::r::d::n::b" *)
+Example C08_whole_call_general_run :
+  let i := sl_in false ex_fl [58;58]%N [47%N] ex_tree true [[114%N]; [97%N]; [98%N]] true [[114%N]; [100%N]; [110%N]; [98%N]] in
+  mi_from i = [[58;58;114;58;58;97;58;58;98]%N]
+  /\ fst (run i) = [T (Some 0) [114%N] [] [ T (Some 1) [97%N] [] [T (Some 4) [99%N] [] []];
+                                          T (Some 5) [100%N] [] [T None [110%N] [] [ex_x]] ]]
+  /\ prop_C08 i (obs_of i (run i)) None = true.
+Proof. vm_compute. conj; reflexivity. Qed.
+(* refused: last names differ; missing from-path; same node *)
+Example C08_prop_refused_run :
+  let i := sl_in true ex_fl [47%N] [47%N] ex_tree false [[114%N]; [97%N]] false [[114%N]; [100%N]; [122%N]] in
+  sl_checks ex_fl ex_tree [[114%N]; [97%N]] [[114%N]; [100%N]; [122%N]] = false /\ snd (run i) = Some ValueError.
+Proof. vm_compute. conj; reflexivity. Qed.
+Example C08_prop_missing_from_run :
+  let i := sl_in false ex_fl [47%N] [47%N] ex_tree false [[114%N]; [122%N]] false [[114%N]; [100%N]; [122%N]] in
+  has (rows ex_tree) [[114%N]; [122%N]] = false /\ snd (run i) = Some NotFoundError.
+Proof. vm_compute. conj; reflexivity. Qed.
+Example C08_prop_same_node_run :
+  let i := sl_in false ex_fl [47%N] [47%N] ex_tree false [[114%N]; [97%N]] true [[114%N]; [97%N]] in
+  run i = ([ex_tree], Some TreeError).
+Proof. vm_compute. reflexivity. Qed.
+Example C08_prop_override_run :
+  let i := sl_in false (MF false true false false false true) [45;62]%N [47%N] ex_tree2 false
+              [[114%N]; [120%N]; [98%N]] true [[114%N]; [121%N]; [98%N]] in
+  snd (run i) = None /\ prop_C08 i (obs_of i (run i)) None = true.
 Proof. vm_compute. conj; reflexivity. Qed.
